@@ -339,7 +339,7 @@ def run_bind(ck, report, replay=None):
         for sig, calls in _corpus():
             fix_src(rng, sig, calls)
             cases.append((sig, calls))
-        n_sig = 500 if ck.tier == "quick" else 9000
+        n_sig = 400 if ck.tier == "quick" else 9000
         n_calls = 5 if ck.tier == "quick" else 6
         for _ in range(n_sig):
             sig = gen_sig(rng)
@@ -391,15 +391,19 @@ def run_bind(ck, report, replay=None):
                 rep["signature_bind"] = r["sigb"]
         ck.obligation(ok_cpy)
         if not ok_cpy:
-            report({"class": "spec-model-vs-cpython", "shape": sig.shape()},
+            report({"class": "spec-model-vs-cpython"},
                    "Bind.cpython_bind (the specification model) differs from CPython itself - the check's spec is wrong",
                    rep, no_input=True)
         # (2) the property itself on the real result (spec = CPython's own answer)
         spec_ok = True
-        if r["cpy"] is None and r["real"] is not None:
+        if r["cpy"] is None and r["real"] is not None and c.has_dup():
+            # bind_args receives a dict: a repeated keyword has already been merged by its caller (the ast.Call
+            # handler).  Whether the COMPILER accepts such a call is decided end-to-end in run_bind_e2e.
+            ck.count("direct_tie_repeated_keyword_merged_by_caller")
+        elif r["cpy"] is None and r["real"] is not None:
             spec_ok = False
-            cls = "duplicate-keyword-accepted" if c.has_dup() else "cpython-rejected-call-accepted"
-            report({"class": cls}, "FunctionDefinition.bind_args / ast.Call accept a call that CPython rejects (%s)" % r.get("cpy_err"), rep)
+            report({"class": "cpython-rejected-call-accepted"},
+                   "FunctionDefinition.bind_args accepts a call that CPython rejects (%s)" % r.get("cpy_err"), rep)
         elif r["cpy"] is not None and r["real"] is not None and r["cpy"] != r["real"]:
             spec_ok = False
             report({"class": "binds-differently"}, "bind_args binds the arguments differently from CPython", rep)
@@ -409,7 +413,7 @@ def run_bind(ck, report, replay=None):
         ok_real = i not in bad_real
         ck.obligation(ok_real and spec_ok)
         if not ok_real and spec_ok:
-            report({"class": "bind-model-vs-code", "shape": sig.shape()},
+            report({"class": "bind-model-vs-code"},
                    "Bind.tracer_bind no longer describes FunctionDefinition.bind_args (the real result still satisfies the "
                    "property on this input)", rep, no_input=True)
         if i % 977 == 3:
@@ -562,8 +566,8 @@ def run_programs(ck, tag, programs, max_rejected_per_program=2):
         acc = [k for k, pr in enumerate(P.probes) if pr.cpy[0] == "ok" and not pr.meta.get("expect_reject")]
         exp = [k for k, pr in enumerate(P.probes) if pr.cpy[0] == "ok" and pr.meta.get("expect_reject")]
         rej = [k for k, pr in enumerate(P.probes) if pr.cpy[0] != "ok"]
-        if acc:
-            todo.append((P, acc))
+        for j in range(0, len(acc), 10):          # small designs: better parallelism, cheaper splitting
+            todo.append((P, acc[j:j + 10]))
         ck.rng.shuffle(rej)
         ck.rng.shuffle(exp)
         for k in rej[:max_rejected_per_program] + exp[:max_rejected_per_program]:
@@ -826,7 +830,7 @@ def run_dispatch_e2e(ck, report):
         pairs = [(l, r) for l in range(len(T)) for r in range(len(T))]
         for l, r in pairs:
             for sym, op, rop, is_cmp, is_eq in OPS:
-                if ti >= len(fixed) and rng.random() < 0.35:
+                if ti >= len(fixed) and rng.random() < 0.5:
                     continue
                 if is_cmp:
                     body = ["return dig3(a%d %s b%d)" % (l, sym, r)]
@@ -1319,7 +1323,7 @@ class DiffGen:
         if d <= 0 or c < 3:
             self.tag("compare")
             return "(%s %s %s)" % (self.I(0), rng.choice(["<", "<=", ">", ">=", "==", "!="]), self.I(0))
-        if c == 3:
+        if c in (3, 11):
             self.tag("chained-compare")
             return "(%s %s %s %s %s)" % (self.I(d - 1), rng.choice(["<", "<="]), self.I(d - 1), rng.choice(["<", "<=", "==", "!=", ">"]),
                                          self.I(d - 1))
@@ -1606,8 +1610,10 @@ DIFF_CORPUS = [
     (["return dig((gadd(1, 2, 3, 4, k=5, zz=6), gpos(1, 2, d=4), P(2).get(1, 2, 3, k=4, q=5), Q(2).get(k=1)))"], "call shapes"),
     (["a, *b, c = [1, 2, 3, 4]", "return dig((a, b, c, [*b, a], (*b, *b)))"], "starred"),
     (["return dig((mk_counter(3)(4), mk_adder(1)(2, 3), apply2(lambda x: x * 3 + 1, 2), compose(mk_adder(1), lambda t: t * 2)(5)))"], "closures"),
-    (["return dig((1 < 2 <= 2, 1 < 2 > 3, 3 if 1 > 2 else 4, first_gt([1, 5, 9], 4), clamp(9, 0, 5), classify(Q(1)), classify(True)))"],
-     "control flow / isinstance"),
+    (["return dig((1 < 3 > 2, 2 >= 2 > 1 > 0, 0 < 5 < 3, 1 < 2 <= 2, 1 < 2 > 3, 4 > 1 < 3 != 3, 3 if 1 > 2 else 4))"], "chained comparisons / if-expression"),
+    (["return dig((clamp(9, 0, 5), clamp(-2, 0, 5), classify(Q(1)), classify(P(1)), classify(True), classify(3), classify(None), classify([1]), fact(4)))"],
+     "constant if / isinstance / recursion"),
+    (["return dig((first_gt([1, 5, 9], 4), first_gt((1, 2), 4), count_if([1, 5, 9], 4)))"], "constant for with early return"),
     (["return dig(({k_: v_ * 2 for k_, v_ in zip(('a', 'b'), [1, 2])}, [q * q for q in range(4) if q != 2], {**{'a': 1}, 'e': 2}))"],
      "comprehensions"),
     (["return dig((Q(2).dbl, P(2).dbl, Q(2)(3), P(2)(3, s=1), Q(1, z=5).w, (2 + P(1)).v, (5 - P(1)).v, (P(1) + R(2)).v, (-P(3)).v, Q(2).twice()))"],
@@ -1617,7 +1623,7 @@ DIFF_CORPUS = [
 
 def run_diff(ck, report):
     rng = ck.rng
-    n_prog = 30 if ck.tier == "quick" else 320
+    n_prog = 24 if ck.tier == "quick" else 320
     per = 5
     programs = []
     ks = {"k%d" % j: 1 + j for j in range(8)}
@@ -1711,12 +1717,41 @@ def run(ck: common.Check, replay=None):
         if re.fullmatch(r"v\d+\.json", f) and replay is None:
             os.unlink(os.path.join(ck.replay_dir, f))
     report = Reporter(ck)
+    ck.assumptions += [
+        "argument binding: parameter names pairwise distinct (Python grammar); values are abstract (N); a call is its flattened "
+        "positional list + keyword list (`*`/`**` expansion itself - iteration of the starred operand - is not modelled)",
+        "operator dispatch: single inheritance class tables, methods answer NotImplemented depending on the exact class of the other "
+        "operand; `!=`, `<=`/`>=`, in-place and unary operators are not modelled (differential only)",
+        "no Gallina semantics of closures/nonlocal/classes/super()/properties/comprehensions/unpacking/subscripts/isinstance: "
+        "these clauses of C10 are covered by differential testing only (coverage.differential), never counted as obligations",
+        "modelled over-rejections of the tracer (defects, not violations of C10): local functions/lambdas with a required keyword-only "
+        "parameter are rejected (_ClassifyNames visits kw_defaults=None); classes that inherit an ordering method from object are "
+        "rejected in comparisons",
+    ]
     if replay is not None and replay.get("sig") is not None:
         run_bind(ck, report, replay)
+        return
+    if replay is not None and replay.get("program") is not None:
+        # re-run one generated program: CPython reference vs the real compiler
+        src = replay["program"]
+        rr = common.run_worker("c10_worker.py", {"mode": "pyref", "dir": os.path.join(ck.gen, "replay"),
+                                                 "programs": [{"name": "replay_prog", "source": src}], "jobs": 1})["results"][0]
+        cr = common.run_worker("compile_worker.py", {"dir": os.path.join(ck.gen, "replay"), "jobs": 1,
+                                                     "designs": [{"name": "replay_design", "source": src, "entity": "E"}]})["results"][0]
+        tr = sorted((int(a), int(b, 2)) for a, b in LIT.findall(cr["vhdl"])) if cr["ok"] else ("rejected", cr.get("error_type"), cr.get("error"))
+        print("replay: CPython reference() =", rr.get("values", rr.get("error")), " compiler ports =", tr)
+        cp = [v[1] if v[0] == "ok" else None for v in rr.get("values", [])] if rr.get("ok") else None
+        same = cr["ok"] and cp is not None and [v for _, v in tr] == cp
+        ck.evaluations += 1
+        ck.obligation(bool(same) or not cr["ok"])
+        if cr["ok"] and not same:
+            ck.violation(replay.get("key", {"class": "replay"}), "replayed program still evaluates differently", dict(replay))
         return
     import time
     for name, fn in (("bind", run_bind), ("bind_e2e", run_bind_e2e), ("dispatch_e2e", run_dispatch_e2e),
                      ("boolop_e2e", run_boolop_e2e), ("differential", run_diff)):
+        if os.environ.get("C10_PHASES") and name not in os.environ["C10_PHASES"].split(","):
+            continue                       # development aid: C10_PHASES=bind,bind_e2e ./check C10
         t0 = time.time()
         fn(ck, report)
         ck.cov.setdefault("phase_wall_s", {})[name] = round(time.time() - t0, 1)
